@@ -20,8 +20,10 @@ Definition run_gmodel (g : gcxs Z) (o : c08op) : option (res (gcxs Z)) :=
   | OT => Some (gcxs_T g)
   | OMT => Some (gcxs_mT g)
   | OMove s d => Some (gcxs_moveaxis g s d)
-  | OReshape new => gcxs_reshape g new
-  | OFlatten => gcxs_flatten g
+  | OReshape new => gcxs_reshape Z.eqb Z.add g new
+  | OFlatten => gcxs_flatten Z.eqb Z.add g
+  | OSqueeze a => Some (gcxs_squeeze Z.eqb Z.add g a)
+  | OBroadcast t => Some (gcxs_broadcast_to Z.eqb Z.add g t)
   | _ => None
   end.
 
